@@ -105,21 +105,22 @@ Definition sext (k : nat) (n : N) : Z :=
   let m := (2 ^ (8 * Z.of_nat k))%Z in
   if (Z.of_N n <? m / 2)%Z then Z.of_N n else (Z.of_N n - m)%Z.
 
+(* the range tests and the widths written by Number::compact_encode: generated from number.rs (gen/Constants.v, CE_...) *)
 Definition int_width (z : Z) : nat :=
-  if ((-128 <=? z) && (z <=? 127))%Z then 1%nat
-  else if ((-32768 <=? z) && (z <=? 32767))%Z then 2%nat
-  else if ((-2147483648 <=? z) && (z <=? 2147483647))%Z then 4%nat
-  else 8%nat.
+  if CE_INT_FITS1 z then CE_INT_W1
+  else if CE_INT_FITS2 z then CE_INT_W2
+  else if CE_INT_FITS3 z then CE_INT_W3
+  else CE_INT_W4.
 Definition uint_width (n : N) : nat :=
-  if n <=? 255 then 1%nat else if n <=? 65535 then 2%nat else if n <=? 4294967295 then 4%nat else 8%nat.
+  if CE_UINT_FITS1 n then CE_UINT_W1 else if CE_UINT_FITS2 n then CE_UINT_W2 else if CE_UINT_FITS3 n then CE_UINT_W3 else CE_UINT_W4.
 
 Definition compact_encode (x : num) : list N :=
   match x with
   | NInt z =>
-      if (z =? 0)%Z then [NUMBER_ZERO]
+      if CE_INT_ZERO z then [NUMBER_ZERO]
       else let w := int_width z in NUMBER_INT :: be_bytes w (twos w z)
   | NUInt n =>
-      if n =? 0 then [NUMBER_ZERO]
+      if CE_UINT_ZERO n then [NUMBER_ZERO]
       else let w := uint_width n in NUMBER_UINT :: be_bytes w n
   | NFloat b =>
       if f_is_nan b then [NUMBER_NAN]
